@@ -296,6 +296,17 @@ SLICER_EDITS = [
        '    if not new_data:\n'
        "        return '[]'\n"
        "    return '[[%s]]' % '], ['.join(new_data)")]),
+    ('sl-bounds-gt', 'semantic', 'direct_slice_data: max(to_keep) > n_rows (the command never asks for an index out of bounds)',
+     [('if max(to_keep) >= n_rows:', 'if max(to_keep) > n_rows:')]),
+    ('sl-ds-shape-rows', 'semantic', 'direct_slice_data: the new observation shape keeps n_rows as its second number',
+     [('new_shape = new_shape % (len(to_keep), n_cols)', 'new_shape = new_shape % (len(to_keep), n_rows)')]),
+    ('sl-ds-no-trim', 'semantic', 'direct_slice_data: the trailing ] of the data text is not trimmed (strip_f removes it anyway)',
+     [('data_fields[data_start:len(data_fields) - 1]', 'data_fields[data_start:len(data_fields)]')]),
+    ('sl-ds-samp-calls-obs', 'semantic', 'direct_slice_data: the sample axis is sliced with the observation slicer',
+     [('new_data = _direct_slice_data_sparse_samp(data_fields, to_keep)',
+       'new_data = _direct_slice_data_sparse_obs(data_fields, to_keep)')]),
+    ('sl-ds-min-default', 'reject', 'direct_slice_data: min(to_keep, default=0)',
+     [('if min(to_keep) < 0:', 'if min(to_keep, default=0) < 0:')]),
     ('sl-rename-local', 'preserving', 'direct_parse_key: local cur_char renamed',
      [('cur_char', 'ch')]),
     ('sl-plus-assign', 'preserving', 'whitespace loop: cur_idx = cur_idx + 1',
